@@ -4,6 +4,7 @@ from gens import pack
 
 def extra_formats():
     out = []
+    out.append(("B", 0xC | (10 << 104), "STANDARD"))
     # C15
     out.append(("F", pack(10, flags=0xC | (1 << 10)), "c15_no_special"))
     out.append(("F", pack(10, flags=0xC | (1 << 11)), "c15_case_sensitive_special"))
